@@ -395,6 +395,7 @@ def jobs(tier):
             out.append({"name": f"{lab}/clip/n{n}K{Kc}", "target": "checks.c02:job_clip",
                         "kwargs": dict(label=lab, n=n, Kc=Kc, timeout_q=(15.0 if q else 120.0)),
                         "timeout": (200 if q else 2400)})
+    out.append({"name": "engine-selftest", "target": "symx.selftest:job", "kwargs": dict(n_cases=300 if tier == "quick" else 1500, seed=0), "timeout": 600})
     return out
 
 
